@@ -14,7 +14,7 @@ Lemma lexf_S f c r :
   else if punct c then omap (cons (TP c)) (lexf f r)
   else if c =? 34 then
     match lex_string (c :: r) with
-    | Some (t, rest) => omap (cons (TS (value_nitrogql t))) (lexf f rest)
+    | Some (t, rest) => omap (cons (TR t)) (lexf f rest)
     | None => None
     end
   else if wordc c then omap (cons (TW (fst (span_word (c :: r))))) (lexf f (snd (span_word (c :: r))))
@@ -88,10 +88,12 @@ Proof.
 Qed.
 
 (** ** the derived rules of [L] *)
-Lemma L_lex x ts : L x ts -> lex x = Some ts.
-Proof. intros [f [Hle H]]. unfold lex. exact (lexf_mono_le f (length x) x ts Hle H). Qed.
+Lemma L_lexf x ts : L x ts -> lexf (length x) x = Some ts.
+Proof. intros [f [Hle H]]. exact (lexf_mono_le f (length x) x ts Hle H). Qed.
+Lemma L_lex_with val x ts : L x ts -> lex_with val x = Some (map (read val) ts).
+Proof. intro H. unfold lex_with. rewrite (L_lexf x ts H). reflexivity. Qed.
 
-Lemma lex_L x ts : lex x = Some ts -> L x ts.
+Lemma lex_L x ts : lexf (length x) x = Some ts -> L x ts.
 Proof. intro H. exists (length x). split; [apply Nat.le_refl|exact H]. Qed.
 
 Lemma L_nil : L [] [].
@@ -112,7 +114,7 @@ Qed.
 
 Lemma L_string r t rest ts :
   lex_string (34 :: r) = Some (t, rest) -> (length rest <= length r)%nat ->
-  L rest ts -> L (34 :: r) (TS (value_nitrogql t) :: ts).
+  L rest ts -> L (34 :: r) (TR t :: ts).
 Proof.
   intros Hs Hlen [f [Hle H]]. exists (S f). split; [cbn [length]; lia|]. rewrite lexf_S.
   change (ignored 34) with false. change (34 =? 35) with false. change (punct 34) with false.
